@@ -108,6 +108,17 @@ fn worker_main(args: &[String]) -> i32 {
         }
     };
     let build = build_name();
+    let progress = match std::fs::OpenOptions::new().create(true).write(true).truncate(true).open(&args[2]) {
+        Ok(f) => f,
+        Err(e) => {
+            eprintln!("cannot open progress file: {e}");
+            return 2;
+        }
+    };
+    let mark = |s: &str| {
+        use std::os::unix::fs::FileExt;
+        let _ = progress.write_all_at(format!("{s:<12}").as_bytes(), 0);
+    };
     for (idx, line) in cases.lines().enumerate() {
         let Ok(line) = line else { break };
         if idx < start || line.trim().is_empty() {
@@ -121,7 +132,7 @@ fn worker_main(args: &[String]) -> i32 {
             }
         };
         let _ = out.flush();
-        let _ = std::fs::write(&args[2], idx.to_string());
+        mark(&idx.to_string());
         let io0 = io_now();
         let evs: Vec<Value> = if c["op"] == "threads" {
             run_threads(&c)
@@ -143,7 +154,7 @@ fn worker_main(args: &[String]) -> i32 {
         }
     }
     let _ = out.flush();
-    let _ = std::fs::write(&args[2], "done");
+    mark("done");
     0
 }
 
